@@ -8,6 +8,10 @@ Transcribes (src/twisted/internet):
   * tcp.py       `Connection.doRead / _dataReceived / writeSomeData / _closeWriteConnection /
                   readConnectionLost / connectionLost`, `_SocketCloser._closeSocket`,
                   `_AbortingMixin.abortConnection`
+                 — the protocol callbacks made from there (`dataReceived`, `readConnectionLost`,
+                 `writeConnectionLost`) may call the transport back RE-ENTRANTLY (scripts `onData`,
+                 `onReadLost`, `onWriteLost`): in particular a `loseConnection()` issued inside `dataReceived` is
+                 followed by the `doWrite` of the same IN|OUT readiness report
   * posixbase.py `_PollLikeMixin._doReadOrWrite`, `_DisconnectSelectableMixin._disconnectSelectable`
                  (select/asyncio dispatch = the single-event special cases of the poll-like one)
 
@@ -64,6 +68,10 @@ structure Conn where
   hasSocket : Bool := true       -- hasattr(self, "socket")
   halfCloseable : Bool := false  -- protocol provides IHalfCloseableProtocol
   onReadLost : List AppOp := []  -- what the protocol's readConnectionLost() calls on the transport
+  onData : List (Nat × List AppOp) := []  -- what the protocol's dataReceived() calls on the transport: the ops of
+                                 -- an entry (threshold, ops) are called, once, inside the dataReceived call that
+                                 -- brings the total received to ≥ threshold (entries in list order)
+  onWriteLost : List AppOp := [] -- what the protocol's writeConnectionLost() calls on the transport
   -- observables / ghosts
   accepted : Bytes := []         -- bytes taken by write/writeSequence
   sent : Bytes := []             -- bytes taken by the kernel
@@ -172,6 +180,22 @@ def disconnectSelectable (v : View) (why : Reason) (isRead : Bool) : View :=
   if why == .done && isRead then readConnLost v
   else connLost { v with c := { v.c with writing := false } } why
 
+/-- the transport calls of the leading `onData` entries whose threshold is reached with `n` bytes received -/
+def dueOps (n : Nat) : List (Nat × List AppOp) → List AppOp
+  | [] => []
+  | (t, ops) :: rest => if t ≤ n then ops ++ dueOps n rest else []
+
+/-- the `onData` entries that stay armed -/
+def restData (n : Nat) : List (Nat × List AppOp) → List (Nat × List AppOp)
+  | [] => []
+  | (t, ops) :: rest => if t ≤ n then restData n rest else (t, ops) :: rest
+
+/-- `protocol.dataReceived(d)`: the protocol records the bytes and — re-entrantly, inside `doRead`, before the
+    `doWrite` of the same readiness report — calls the transport as its `onData` script says -/
+def dataReceived (v : View) (d : Bytes) : View :=
+  let c := { v.c with received := v.c.received ++ d }
+  appOps { v with c := { c with onData := restData c.received.length c.onData } } (dueOps c.received.length c.onData)
+
 /-- `Connection.doRead`: result (`none` = keep going) and new state -/
 def doRead (p : Params) (v : View) (n : Nat) : Option Reason × View :=
   if v.c.aborting then (none, v)
@@ -179,7 +203,7 @@ def doRead (p : Params) (v : View) (n : Nat) : Option Reason × View :=
     | (.again, v) => (none, v)
     | (.err, v) => (some .lost, v)
     | (.eof, v) => (some .done, v)
-    | (.data d, v) => (none, { v with c := { v.c with received := v.c.received ++ d } })
+    | (.data d, v) => (none, dataReceived v d)
 
 /-- first part of `FileDescriptor.doWrite`: fold `_tempDataBuffer` into `dataBuffer` when less than
     SEND_LIMIT bytes are left in it -/
@@ -199,7 +223,9 @@ def afterSend (v : View) (off : Bytes) (l : Nat) : Option Reason × View :=
     if c.disconnecting then (some .done, { v with c := c })
     else if c.writeDisconnecting then
       let v := kShutWr { v with c := { c with writeDisconnected := true } }
-      (none, if c.halfCloseable then { v with c := { v.c with writeLost := v.c.writeLost + 1 } } else v)
+      (none, if c.halfCloseable then
+               appOps { v with c := { v.c with writeLost := v.c.writeLost + 1 } } c.onWriteLost
+             else v)
     else (none, { v with c := c })
   else (none, { v with c := c })
 
@@ -260,8 +286,9 @@ structure Sys where
   deriving DecidableEq, Repr, Inhabited
 
 /-- a freshly connected transport: only the protocol's behaviour is configurable -/
-def Conn.fresh (half : Bool) (onReadLost : List AppOp) : Conn :=
-  { halfCloseable := half, onReadLost := onReadLost }
+def Conn.fresh (half : Bool) (onReadLost : List AppOp) (onData : List (Nat × List AppOp) := [])
+    (onWriteLost : List AppOp := []) : Conn :=
+  { halfCloseable := half, onReadLost := onReadLost, onData := onData, onWriteLost := onWriteLost }
 
 /-- both ends just connected, nothing in flight -/
 def Sys.init (p : Params) (a b : Conn) : Sys := { p := p, a := a, b := b, ka := {}, kb := {} }
